@@ -126,6 +126,8 @@ def _apply(op, d, p):
             if len(vals) < 2:
                 vals = vals + vals
             kw["divisions"] = vals
+        elif len(op) > 2 and op[2]:
+            kw["npartitions"] = op[2]      # requested count; repeated quantiles may collapse it
         return d.set_index("w", **kw), p.set_index("w")
     if k == "concat":
         idx2 = op[1]
@@ -201,10 +203,21 @@ def case_pipeline(ctx, inp):
         si = [i for i, o in enumerate(inp["ops"]) if o[0] in ("set_index", "reset_set")]
         si_computed = [i for i in si if inp["ops"][i][0] == "reset_set" or inp["ops"][i][1] is None]
         pushed = bool(si_computed) and any(o[0] == "filter" for o in inp["ops"][si_computed[0] + 1:])
-        fsig = "set_index(computed divisions)+filter:optimizer-recomputes-divisions" if pushed else None
+        cand = "set_index(computed divisions)+filter:optimizer-recomputes-divisions" if pushed else None
         # known finding: Head/Tail of such a set_index is rewritten to SetIndex(NFirst/NLast(...))
-        if fsig is None and si_computed and any(o[0] in ("head", "tail") for o in inp["ops"][si_computed[0] + 1:]):
-            fsig = "set_index(computed divisions)+head|tail:optimizer-rewrites-to-NFirst/NLast"
+        if cand is None and si_computed and any(o[0] in ("head", "tail") for o in inp["ops"][si_computed[0] + 1:]):
+            cand = "set_index(computed divisions)+head|tail:optimizer-rewrites-to-NFirst/NLast"
+        # the recorded symptom is exactly: the optimized expression reports OTHER divisions than the collection, and the
+        # partitions of the graph are truthful for those; anything else in such a pipeline is reported as fresh
+        fsig = None
+        if cand is not None:
+            try:
+                odivs = list(d.optimize(fuse=False).divisions)
+                if odivs != list(d.divisions):
+                    fsig = cand
+                    ctx.branch("optimizer-changes-divisions")
+            except Exception:  # noqa: BLE001 - classified below, where the same failure surfaces at compute time
+                pass
         last = inp["ops"][-1][0] if inp["ops"] else inp["src"]["kind"]
         # the order of rows with EQUAL index values inside a partition after a shuffle (set_index / index merge) is the
         # shuffle's arrival order - not promised, and different between two graphs of the same expression
@@ -219,9 +232,12 @@ def case_pipeline(ctx, inp):
         except Exception as e:  # noqa: BLE001
             # with the known optimizer rewrites the reported divisions and the graph disagree; a later step that
             # relies on the reported divisions (repartition(divisions=...)) then fails at compute time
+            # (only for the rewrite candidates above; every other raising pipeline is a fresh failure)
+            consumes = any(o[0] in ("repartition_d", "repartition_n", "loc_slice", "loc_list", "loc_elem", "partitions",
+                                    "partitions_slice") for o in inp["ops"][(si_computed[0] + 1) if si_computed else 0:])
             ctx.fail("computing divisions/partitions raised: " + U.exc_name(e),
-                     sig=fsig or (f"set_index(computed divisions)+later-step:compute-raises-{type(e).__name__}" if si and len(inp["ops"]) > si[0] + 1
-                                  else f"{inp['ops'][-1][0] if inp['ops'] else 'source'}:compute:{type(e).__name__}"),
+                     sig=(f"set_index(computed divisions)+later-step:compute-raises-{type(e).__name__}" if cand and consumes
+                          else f"{inp['ops'][-1][0] if inp['ops'] else 'source'}:compute:{type(e).__name__}"),
                      observed=[U.exc_name(e), path])
             return
 
@@ -244,7 +260,9 @@ def case_pipeline(ctx, inp):
             except TypeError:
                 ctx.note("not-internable")
             if why:
-                ctx.fail("known divisions are not truthful: " + why, sig=fsig, observed=[divs, keys, path])
+                # with the recorded rewrite the partitions must at least be truthful for the divisions of the optimized expression
+                tsig = fsig if (fsig and (any(x is None for x in odivs) or U.truthful(odivs, parts) is None)) else None
+                ctx.fail("known divisions are not truthful: " + why, sig=tsig, observed=[divs, keys, path])
             # the public per-partition view must be the same partitions
             for i in sorted(set(ctx.rng.randrange(n) for _ in range(2))) if n else []:
                 try:
@@ -268,7 +286,7 @@ def case_pipeline(ctx, inp):
             got = sorted((int(k), -1 if v != v else int(v)) for pp in parts for k, v in zip(pp.index, pp.v))
             exp = sorted((int(k), -1 if v != v else int(v)) for k, v in zip(p.index, p.v))
             if got != exp:
-                ctx.fail("rows differ from the pandas reference", sig=fsig or f"rows:{last}", observed=[got[:12], exp[:12], path])
+                ctx.fail("rows differ from the pandas reference", sig=f"rows:{last}", observed=[got[:12], exp[:12], path])
     del pd
 
 
@@ -369,7 +387,9 @@ def _rand_op(rng, first):
     if t < 0.72:
         return ["partitions_slice", rng.randint(0, 9), rng.randint(0, 9)]
     if t < 0.80:
-        return ["set_index", None if rng.random() < 0.5 else [rng.randint(0, 10) for _ in range(rng.randint(1, 4))]]
+        if rng.random() < 0.5:
+            return ["set_index", None] + ([rng.randint(2, 6)] if rng.random() < 0.35 else [])
+        return ["set_index", [rng.randint(0, 10) for _ in range(rng.randint(1, 4))]]
     if t < 0.86:
         return ["concat", [rng.randint(0, hi) for _ in range(rng.randint(1, 6))], rng.randint(1, 3)]
     if t < 0.92:
